@@ -21,6 +21,11 @@ extern char      vw_log[VW_LOG_SIZE];
 extern size_t    vw_log_len;
 extern int       vw_first_cfr_errno;
 
+extern int       vw_mode, vw_open_count;
+struct stat;
+extern void (*vw_stat_hook)(const char* path, int ret, const struct stat* sb);
+
 void vw_reset(void);
+void vw_logs(const char* text);
 void vw_logf(const char* name, long arg, long ret);
 #endif
